@@ -1,7 +1,7 @@
 #!/usr/bin/env bash
 # developer tool: tools/seeded.sh <patch.diff> <check args...>  : run checks against a scratch copy of /repo with the patch applied
-set -e
 patch=$1; shift
-d=$(mktemp -d /tmp/pyvc_seed_XXXX); cp -r /repo/eaopack $d/; (cd $d && patch -p1 -s < $patch)
-for p in "$@"; do PYVC_REPO=$d /verif/check $p 2>&1 | grep -E "VIOLATION|UNDECIDED|CHECKER|exit=" | sed 's#/verif/replays/##' | cut -c1-200 | head -6; done
+d=$(mktemp -d /tmp/pyvc_seed_XXXX); cp -r /repo/eaopack $d/
+if ! (cd $d && patch -p1 -s --no-backup-if-mismatch < $patch); then echo "PATCH DOES NOT APPLY to the current /repo tree: $patch"; rm -rf $d; exit 3; fi
+for p in "$@"; do PYVC_REPO=$d /verif/check $p 2>&1 | grep -E "VIOLATION|UNDECIDED|CHECKER|exit=|Traceback|Error" | sed 's#/verif/replays/##' | cut -c1-200 | head -6; done
 rm -rf $d
